@@ -23,11 +23,45 @@ def main(argv=None):
         v = (data.get("violations") or [{}])[0]
         replay = {"rule": v.get("rule")}
     try:
-        return mod.run(tier=tier, replay=replay)
+        code = mod.run(tier=tier, replay=replay)
+        if tier == "thorough" and not replay and not os.environ.get("SA_SELFTEST_CHILD"):
+            code = _selftest(prop, code)
+        return code
     except Exception:
         print("ANALYSIS-ERROR property=%s uncaught exception in checker" % prop)
         traceback.print_exc()
         return 2
+
+
+def _selftest(prop, code):
+    """Thorough tier: the checker is exercised on single-edit variants of the current tree."""
+    import time
+    from . import selftest
+    from .report import VERIF
+    t0 = time.time()
+    summary, failures = selftest.run(prop)
+    evpath = os.path.join(os.environ.get("SA_EVIDENCE_DIR") or os.path.join(VERIF, "evidence"), prop + ".json")
+    try:
+        with open(evpath) as fd:
+            ev = json.load(fd)
+        ev["coverage"]["selftest"] = summary
+        ev["coverage"]["explanation"] += (" Thorough tier: additionally %d single-edit variants of the current tree were "
+                                          "analysed (%d breaking edits each detected by the named rule, %d behaviour-preserving "
+                                          "twins silent, %d skipped because the anchor no longer exists)."
+                                          % (summary["variants"], summary["break_detected"], summary["twins_silent"], len(summary["skipped"])))
+        ev["wall_s"] = round(ev["wall_s"] + time.time() - t0, 3)
+        with open(evpath, "w") as fd:
+            json.dump(ev, fd, indent=1, sort_keys=True)
+            fd.write("\n")
+    except OSError:
+        pass
+    print("selftest property=%s variants=%d detected=%d twins_silent=%d skipped=%d wall=%.1fs" % (
+        prop, summary["variants"], summary["break_detected"], summary["twins_silent"], len(summary["skipped"]), time.time() - t0))
+    for f in failures:
+        print("SELFTEST-MISS property=%s %s" % (prop, f))
+    if failures and code == 0:
+        return 2
+    return code
 
 
 if __name__ == "__main__":
